@@ -58,9 +58,16 @@ CopyAssign(c, d) == ex[c] /\ ex[d] /\ el' = [el EXCEPT ![c] = el[d]] /\ UNCHANGE
 MoveAssign(c, d) == ex[c] /\ ex[d] /\ el' = (IF c = d THEN el ELSE [el EXCEPT ![c] = el[d], ![d] = <<>>]) /\ UNCHANGED ex /\ Fix
 \* queries (state unchanged; answers from el)
 Query(c) == ex[c] /\ UNCHANGED avars
+\* element comparison: ordinary values compare as numbers; the codes 1000 / 1001 / 1002 stand for +0.0 / -0.0 / NaN of a
+\* floating element type (equal zeros, a NaN equal to nothing and ordered with nothing), as std::vector compares them
+IsNaNv(v) == v = 1002
+NumOf(v) == IF v \in {1000, 1001} THEN 0 ELSE v
+EqVal(a, b) == ~IsNaNv(a) /\ ~IsNaNv(b) /\ NumOf(a) = NumOf(b)
+LtVal(a, b) == ~IsNaNv(a) /\ ~IsNaNv(b) /\ NumOf(a) < NumOf(b)
+SeqEq(a, b) == Len(a) = Len(b) /\ \A i \in 1..Len(a) : EqVal(a[i], b[i])
 RECURSIVE LexLess(_, _, _)
 LexLess(a, b, i) == IF i > Len(b) THEN FALSE ELSE IF i > Len(a) THEN TRUE
-                    ELSE IF a[i] < b[i] THEN TRUE ELSE IF b[i] < a[i] THEN FALSE ELSE LexLess(a, b, i + 1)
+                    ELSE IF LtVal(a[i], b[i]) THEN TRUE ELSE IF LtVal(b[i], a[i]) THEN FALSE ELSE LexLess(a, b, i + 1)
 
 Srcs == UNION {[1..k -> Vals] : k \in 0..(MaxSize + 2)}
 Next == \/ \E c \in C : Create(c)
